@@ -116,11 +116,12 @@ void AsyncSink::onLogBackEnd(const LogContent &content)
     if (content.text_len > 0) {
         append(content.text_ptr, content.text_len);
         append(' '); //! 追加空格
+    }
 
-        if (content.text_trunc) {
-            const char *tip = "(TRUNCATED) ";
-            append(tip, ::strlen(tip));
-        }
+    //! 截断标记不依赖于剩余文本长度（最大长度为0时文本被整个截掉，也要标记）
+    if (content.text_trunc) {
+        const char *tip = "(TRUNCATED) ";
+        append(tip, ::strlen(tip));
     }
 
     if (content.file_name != nullptr) {
